@@ -287,6 +287,111 @@ def der_short_worker(shards):
     return acc
 
 
+# ---- one DER object, every history of decode() calls ----------------------
+def _reuse_alphabet(name):
+    """encodings offered to a class: several it accepts (different lengths and shapes) and several it refuses"""
+    I = lambda v: ref_tlv_enc(0x02, ref_int_content_min(v))
+    O = lambda b: ref_tlv_enc(0x04, b)
+    base = name.split("[")[0]
+    if base == "DerObject":
+        # a DerObject() created without a tag adopts the tag of the first thing it decodes (documented: "if None, the
+        # tag is not known yet"), so every accepted encoding of this alphabet carries the same tag
+        xs = [O(b"\xaa\xbb"), O(b""), O(b"\x05"), O(bytes(200)), b"\x04\x05\xaa", b"", b"\x04\x81\x01\x00"]
+    elif base == "DerInteger":
+        xs = [I(0), I(127), I(128), I(-1), I(1 << 64), I(-(1 << 70)), b"\x02\x02\x00\x01", b"\x04\x01\x00", b"\x02\x01"]
+    elif base == "DerBoolean":
+        xs = [b"\x01\x01\xff", b"\x01\x01\x00", b"\x01\x02\x00\x00", b"\x01\x00"]
+    elif base == "DerOctetString":
+        xs = [O(b""), O(b"abc"), O(bytes(range(200))), O(b"z"), b"\x04\x02\x00", b"\x05\x00"]
+    elif base == "DerNull":
+        xs = [b"\x05\x00", b"\x05\x01\x00", b"\x05", b"\x04\x00"]
+    elif base == "DerSequence":
+        S = lambda *m: ref_tlv_enc(0x30, b"".join(m))
+        xs = [S(), S(I(1), I(2)), S(I(300), O(b"xy"), S(I(7))), S(O(b"only")), S(I(-5)), S(I(1), I(2))[:-1], S(I(1)) + b"\x00", b"\x31\x00"]
+    elif base == "DerObjectId":
+        T = lambda v: ref_tlv_enc(0x06, ref_oid_content(v))
+        xs = [T("1.2.840.113549.1.1.1"), T("2.999.3"), T("0.0"), T("1.3.101.112"), b"\x06\x00", b"\x06\x02\x2a\x80"]
+    elif base == "DerBitString":
+        xs = [b"\x03\x01\x00", b"\x03\x02\x00\xff", b"\x03\x04\x00\xaa\xbb\xcc", b"\x03\x00", b"\x04\x01\x00"]
+    elif base == "DerSetOf":
+        S = lambda *m: ref_tlv_enc(0x31, b"".join(m))
+        xs = [S(), S(I(1), I(2)), S(O(b"a"), O(b"bb")), S(I(9)), S(I(1), O(b"a")), S(I(2), I(1)), S(I(1))[:-1]]
+    if "[explicit0]" in name:
+        xs = [ref_tlv_enc(0xA0, x) for x in xs[:6]] + xs[:2] + [b"\xa0\x00"]
+    elif "[implicit1]" in name:
+        xs = [bytes([0xA1]) + x[1:] for x in xs if x] + xs[:2]
+    elif "[implicit2]" in name:
+        xs = [bytes([0x82]) + x[1:] for x in xs if x] + xs[:2]
+    return xs
+
+
+def _der_observe(obj):
+    out = [obj.encode()]
+    for a in ("value", "payload"):
+        if hasattr(obj, a):
+            v = getattr(obj, a)
+            out.append((a, bytes(v) if isinstance(v, (bytes, bytearray)) else repr(v)))
+    try:
+        out.append(("items", repr(list(obj[:])) if hasattr(obj, "__getitem__") else None))
+    except Exception as e:  # noqa
+        out.append(("items", type(e).__name__))
+    return out
+
+
+def _der_reuse_history(name, mk, xs, fresh, hist, acc):
+    """hist: [(index into xs, strict)]; after every SUCCESSFUL decode the object equals a fresh object's"""
+    obj = mk()
+    for n, (i, strict) in enumerate(hist):
+        acc.count("evaluations")
+        try:
+            obj.decode(xs[i], strict=strict)
+            got = ("accept", _der_observe(obj))
+        except ValueError:
+            got = ("ValueError", None)
+        except Exception as e:  # noqa
+            got = (type(e).__name__, None)
+        want = fresh[(i, strict)]
+        if got[0] != want[0] or (got[0] == "accept" and got[1] != want[1]):
+            acc.violation("C13/der-reuse/%s/decode-depends-on-earlier-decodes" % name.split("[")[0],
+                          "%s: after decode() of %s on the same object, decode(%s, strict=%s) gives %s; a fresh object gives %s"
+                          % (name, [(xs[j].hex(), st) for j, st in hist[:n]], xs[i].hex(), strict, short(repr(got)), short(repr(want))),
+                          {"part": "der-reuse", "cls": name, "history": [[j, bool(st)] for j, st in hist[:n + 1]]}, size=n + 1)
+            return
+
+
+def der_reuse_worker(shards):
+    global _CLS
+    if _CLS is None:
+        _CLS = _classes()
+    acc = Acc()
+    for name, depth in shards:
+        mk = [c for c in _CLS if c[0] == name][0][1]
+        xs = _reuse_alphabet(name)
+        ops = [(i, st) for i in range(len(xs)) for st in (False, True)]
+        fresh = {}
+        for (i, st) in ops:
+            o = mk()
+            try:
+                o.decode(xs[i], strict=st)
+                fresh[(i, st)] = ("accept", _der_observe(o))
+            except ValueError:
+                fresh[(i, st)] = ("ValueError", None)
+            except Exception as e:  # noqa  (reported by der_check on the same input class)
+                fresh[(i, st)] = (type(e).__name__, None)
+        nacc = sum(1 for v in fresh.values() if v[0] == "accept")
+        if nacc < 4 or nacc == len(ops):
+            acc.error("der-reuse alphabet of %s: %d of %d decodes accepted (needs both kinds)" % (name, nacc, len(ops)))
+        nh = 0
+        for d in range(2, depth + 1):
+            for hist in itertools.product(ops, repeat=d):
+                _der_reuse_history(name, mk, xs, fresh, hist, acc)
+                nh += 1
+        acc.count("der_reuse_histories", nh)
+        acc.seen("classes", ("der-reuse", name, depth, nacc))
+    acc.sample({"part": "der-reuse", "class": name, "alphabet": [x.hex() for x in xs], "depth": depth})
+    return acc
+
+
 # ---- mutation closure of valid encodings ---------------------------------
 def der_seeds():
     from Crypto.Util import asn1
@@ -1275,6 +1380,8 @@ def run(ctx):
     # DER: every length form (canonical + all non-minimal forms up to 4 length octets) of every content length
     top = 300 if q else 1100
     ctx.pmap(der_lenform_worker, [[(a, min(a + 25, top + 1))] for a in range(0, top + 1, 25)] + [[(65535, 65537)]])
+    # DER: one object decoded repeatedly (every history of 2..3 decodes over accepted and refused encodings)
+    ctx.pmap(der_reuse_worker, [[(c[0], 3)] for c in _classes()])
     # DER: round trips
     rng = 8000 if q else 70000
     step = 2000
@@ -1312,7 +1419,7 @@ def run(ctx):
         "exhaustive": not a.caps,
         "max_import_call_events": 2000 * (max(a.distinct.get("call_buckets", {0})) + 1),
         "parts": ["der-short(all strings len<=2; len 3-5 over 16-symbol alphabet%s)" % (" [quick: len5 over 8 symbols]" if q else ""),
-                  "der-mutation-closure(17 seeds)", "der-length-forms(content lengths 0..%d and 65535/65536 x canonical + every non-minimal form of 1..4 length octets, top-level and as SEQUENCE member)" % top, "der-roundtrip(int range +-%d, 2^k+-1 k<=2100, oids, tags 0..30, nested)" % rng,
+                  "der-mutation-closure(17 seeds)", "der-object-reuse(12 classes x every history of 2..3 decode() calls; %d histories)" % a.n.get("der_reuse_histories", 0), "der-length-forms(content lengths 0..%d and 65535/65536 x canonical + every non-minimal form of 1..4 length octets, top-level and as SEQUENCE member)" % top, "der-roundtrip(int range +-%d, 2^k+-1 k<=2100, oids, tags 0..30, nested)" % rng,
                   "padding(bs 1..32,255 x len 0..2bs x 3 styles; all strings bs<=2; tail patterns)",
                   "long_to_bytes(n<%d x blocksize 0..17)" % top, "rfc1751", "pem(roundtrip+mutation closure)",
                   "key-import mutation closure (%d keys)" % nk, "crafted fields/OIDs", "pkcs8 wrap/unwrap"],
@@ -1327,6 +1434,25 @@ def replay(case, acc):
     part = case["part"]
     if part == "der":
         der_check(case["x"], acc, "replay")
+    elif part == "der-reuse":
+        global _CLS
+        if _CLS is None:
+            _CLS = _classes()
+        name = case["cls"]
+        mk = [c for c in _CLS if c[0] == name][0][1]
+        xs = _reuse_alphabet(name)
+        fresh = {}
+        for i in range(len(xs)):
+            for st in (False, True):
+                o = mk()
+                try:
+                    o.decode(xs[i], strict=st)
+                    fresh[(i, st)] = ("accept", _der_observe(o))
+                except ValueError:
+                    fresh[(i, st)] = ("ValueError", None)
+                except Exception as e:  # noqa
+                    fresh[(i, st)] = (type(e).__name__, None)
+        _der_reuse_history(name, mk, xs, fresh, [(j, bool(st)) for j, st in case["history"]], acc)
     elif part == "lenform":
         acc.merge(der_lenform_worker([(case["L"], case["L"] + 1)]))
     elif part == "unpad":
